@@ -254,12 +254,26 @@ def lazy_parallel_map(
         try:
             # First fill the buffer
             # If buffer full, take one element and push one new inside
-            for ele in generator:
+            generator_exception = None
+            generator = iter(generator)
+            while True:
+                try:
+                    ele = next(generator)
+                except StopIteration:
+                    break
+                except BaseException as e:
+                    # The (serially executed) generator failed. First yield
+                    # the results that are already submitted, so that the
+                    # consumer gets every element that precedes the failure.
+                    generator_exception = e
+                    break
                 if q.qsize() >= buffer_size:
                     yield result(q.get())
                 q.put(submit(executor, function, ele, *args, **kwargs))
             while not q.empty():
                 yield result(q.get())
+            if generator_exception is not None:
+                raise generator_exception
         except GeneratorExit:
             # A GeneratorExit will not stop the PoolExecutor,
             # i.e. the PoolExecutor will finish all calculations,
